@@ -58,6 +58,11 @@ def run(ctx: Ctx, aspect="verdict"):
     # one rule object applied to two architectures (regex specifications resolved per architecture)
     from ..rules_common import reuse_stream
 
+    from ..rules_common import partial_name_stream
+
+    s = Stream(ctx, "partial names (have_name_containing) vs the modules their glob meaning selects")
+    partial_name_stream(ctx, s, ctx.size(1500, 15000))
+    s.finish()
     s = Stream(ctx, "re-used rule objects: second application vs a fresh rule object")
     reuse_stream(ctx, s, ctx.size(1500, 20000))
     s.finish()
